@@ -383,6 +383,16 @@ def check_unknown(res, T, O):
             for rel, g, s in panics.dominating_facts(f, b):
                 if rel[0] == 'true' and is_call(rel[1], 'register_is_valid'):
                     ok = True
+    if not ok:
+        # the lazy spelling: self.register_is_valid(reg, valid).then(|| self.get_register_always(reg)) - bool::then
+        # runs its closure only for `true`
+        for (b, i, t) in ret_assigns(f):
+            e = f.expand(t)
+            if is_call(e, 'core::bool::then') and len(e) == 4 and is_call(e[2], 'register_is_valid') and e[3][0] == 'closure':
+                g = c.fn(e[3][1])
+                direct = [1 for b2, t2 in f.calls() if (f.callee_decl(t2) or '').endswith('CpuContext::get_register_always')]
+                if g is not None and not direct and all(is_call(g.expand(t2), 'get_register_always') for (_, _, t2) in ret_assigns(g)):
+                    ok = True
     if ok:
         O['ok'] += 1
     else:
@@ -392,19 +402,30 @@ def check_unknown(res, T, O):
     cl = c.fn('minidump::context::default_memoize_register::{closure#0}')
     O['n'] += 3
     # (a) the search is registers.iter().position(closure(reg)) over the first argument
-    ok_a = False
+    ok_a = ok_b = ok_c = False
     if d is not None:
+        iters = [show(d.expand(d.call_tree(t2))) for _, t2 in d.calls() if (d.callee(t2) or '').endswith('slice::iter')]
         for b_, t in d.calls():
-            if (d.callee(t) or '').endswith('Iterator>::position') or (d.callee_decl(t) or '').endswith('Iterator::position'):
-                it = show(d.expand(d.operand_tree(t['args'][0])))
-                it_src = [show(d.expand(d.call_tree(t2))) for _, t2 in d.calls() if (d.callee(t2) or '').endswith('slice::iter')]
+            n = d.callee(t) or ''
+            dn = d.callee_decl(t) or ''
+            if n.endswith('Iterator>::position') or dn.endswith('Iterator::position') or n.endswith('Iterator>::find') or dn.endswith('Iterator::find'):
                 cl_arg = show(d.expand(d.operand_tree(t['args'][1])))
-                ok_a = it_src == ['(core::slice::iter registers)'] and cl_arg == '(closure minidump::context::default_memoize_register::{closure#0} reg)'
-    # (b) the predicate is exact string equality with the queried name - the match arms of get / set / is_valid are exact
-    #     literals, so any looser predicate (case-insensitive, prefix, trimmed) lets a name be "known" that no arm handles
-    ok_b = cl is not None and [show(cl.expand(t)) for (b, i, t) in ret_assigns(cl)] in (['(std::cmp::impls::eq val reg)'], ['(core::str::traits::eq val reg)'], ['(core::cmp::impls::eq val reg)'])
-    # (c) what is returned is the table's own spelling at the found index
-    ok_c = d is not None and any(re.match(r"^\(adt std::option::Option::Some \(index registers \(Continue\.0 \(trybranch \(<std::slice::Iter<'a, T> as std::iter::Iterator>::position (_\d+|\(core::slice::iter registers\)) \(closure minidump::context::default_memoize_register::\{closure#0\} reg\)\)\)\)\)\)$", show(d.expand(t))) for (b, i, t) in ret_assigns(d))
+                # (a) a left-to-right search over the table handed in, with a predicate that captures the queried name
+                ok_a = iters == ['(core::slice::iter registers)'] and cl_arg == '(closure minidump::context::default_memoize_register::{closure#0} reg)'
+                kind = 'find' if 'find' in (n + dn).split('::')[-1] else 'position'
+                rets = [show(d.expand(t3)) for (_, _, t3) in ret_assigns(d)]
+                if kind == 'position':
+                    ok_c = any(re.match(r"^\(adt std::option::Option::Some \(index registers \(Continue\.0 \(trybranch \(<std::slice::Iter<'a, T> as std::iter::Iterator>::position (_\d+|\(core::slice::iter registers\)) \(closure minidump::context::default_memoize_register::\{closure#0\} reg\)\)\)\)\)\)$", r) for r in rets)
+                else:
+                    # (c') the element found, copied out: the table's own spelling
+                    ok_c = any(re.match(r"^\(std::option::Option::(copied|cloned) \(<std::slice::Iter<'a, T> as std::iter::Iterator>::find (_\d+|\(core::slice::iter registers\)) \(closure minidump::context::default_memoize_register::\{closure#0\} reg\)\)\)$", r) for r in rets) and len(rets) == 1
+    # (b) the predicate is exact string equality between the table entry (the closure's argument) and the queried name -
+    #     the match arms of get / set / is_valid are exact literals, so any looser predicate (case-insensitive, prefix,
+    #     trimmed) lets a name be "known" that no arm handles
+    if cl is not None:
+        rets = [cl.expand(t) for (b, i, t) in ret_assigns(cl)]
+        ok_b = len(rets) == 1 and rets[0][0] == 'call' and rets[0][1] in ('std::cmp::impls::eq', 'core::str::traits::eq', 'core::cmp::impls::eq') and len(rets[0]) == 4 \
+            and show(rets[0][3]) == 'reg' and rets[0][2] in (('arg', 2),) or (len(rets) == 1 and rets[0][0] == 'call' and rets[0][1] in ('std::cmp::impls::eq', 'core::str::traits::eq', 'core::cmp::impls::eq') and len(rets[0]) == 4 and show(rets[0][3]) == 'reg' and rets[0][2][0] == 'var' and cl.argc == 2 and rets[0][2][2] in (2,))
     for okx, key, msg in ((ok_a, 'search', 'default_memoize_register is not registers.iter().position(|val| ..)'),
                           (ok_b, 'predicate', 'default_memoize_register does not compare names with exact equality (*val == reg): a name can then be memoized that the exact-literal arms of get_register / set_register do not handle'),
                           (ok_c, 'result', 'default_memoize_register does not return registers[idx] for the found index')):
